@@ -230,7 +230,7 @@ pub fn search<P: Prop>(p: &P, opts: &Opts) -> Outcome<P::Case> {
                 std::env::var("VERIF_HANG_S")
                     .ok()
                     .and_then(|s| s.parse().ok())
-                    .unwrap_or(120),
+                    .unwrap_or(300),
             );
             while !watchdog_done.load(Ordering::Relaxed) {
                 std::thread::sleep(std::time::Duration::from_millis(200));
